@@ -22,3 +22,4 @@ import GrafeoModel.Props.C17
 import GrafeoModel.Props.C18
 import GrafeoModel.Props.C19
 import GrafeoModel.Props.C20
+import GrafeoModel.Props.C20LpgCreate
